@@ -328,6 +328,11 @@ func storeOp(c *Ctx, op string, a map[string]string) {
 			s := rig.all[1].ScrapeSwarm(ih, p.IP.AddressFamily)
 			rig.clock = old + 1e9
 			return fmt.Sprintf("reannounced_during_pass=%s kept=%d", b01(fired), s.Complete)
+		case "st.redis_sched":
+			if rig.kind != "redis" {
+				return "n/a"
+			}
+			return redisSched(a["ih"], a["progs"], a["sched"])
 		case "st.dump":
 			return storeDump()
 		case "st.totals":
@@ -519,4 +524,153 @@ func runStore(c *Ctx, pf storeProfile) {
 			storeOp(c, "st.redis_gc_race", map[string]string{"ih": hx(fresh), "pk": hx(u.peers[0])})
 		}
 	}
+}
+
+// redisSched runs the programs (one goroutine and one store instance per thread, all on the shared Redis) under a
+// scheduler that lets exactly one thread perform exactly one round trip at a time, in the order given by sched; a
+// thread that has finished (or does not exist) makes its entry a no-op. After the schedule the server state is read
+// straight from the Redis (mid), then every thread is run to completion, thread 0 first. Reported: the mid state and
+// the operations in the order of their first round trips with their results.
+func redisSched(ihHex, progsArg, schedArg string) string {
+	type sop struct{ kind, pk string }
+	var progs [][]sop
+	for _, t := range strings.Split(progsArg, "|") {
+		var pr []sop
+		if t != "-" && t != "" {
+			for _, o := range strings.Split(t, ";") {
+				kv := strings.SplitN(o, ":", 2)
+				if len(kv) != 2 {
+					return "bad-progs"
+				}
+				pr = append(pr, sop{kv[0], kv[1]})
+			}
+		}
+		progs = append(progs, pr)
+	}
+	var sched []int
+	if schedArg != "-" && schedArg != "" {
+		for _, x := range strings.Split(schedArg, ",") {
+			n, err := strconv.Atoi(x)
+			if err != nil {
+				return "bad-sched"
+			}
+			sched = append(sched, n)
+		}
+	}
+	ih := bittorrent.InfoHashFromBytes(unhx(ihHex))
+	n := len(progs)
+	type thr struct {
+		ps      storage.PeerStore
+		parked  chan bool // value: this round trip is the first of its operation
+		grant   chan struct{}
+		done    chan struct{}
+		first   bool
+		results []string
+		state   int // 0 running, 1 parked, 2 done
+		atFirst bool
+	}
+	ths := make([]*thr, n)
+	for t := 0; t < n; t++ {
+		ps, err := redis.New(redis.Config{RedisBroker: "redis://@" + rig.mr.Addr() + "/0", GarbageCollectionInterval: time.Hour,
+			PrometheusReportingInterval: time.Hour, PeerLifetime: time.Hour, RedisReadTimeout: 10 * time.Second,
+			RedisWriteTimeout: 10 * time.Second, RedisConnectTimeout: 10 * time.Second})
+		if err != nil {
+			return "new-failed"
+		}
+		th := &thr{ps: ps, parked: make(chan bool), grant: make(chan struct{}), done: make(chan struct{})}
+		ths[t] = th
+		redis.VerifHookBeforeDo(ps, func(string) {
+			f := th.first
+			th.first = false
+			th.parked <- f
+			<-th.grant
+		})
+	}
+	var order []([2]int) // (thread, index of the operation in its program)
+	started := make([]int, n)
+	wait := func(t int) {
+		th := ths[t]
+		select {
+		case f := <-th.parked:
+			th.state = 1
+			th.atFirst = f
+		case <-th.done:
+			th.state = 2
+		case <-time.After(20 * time.Second):
+			th.state = 2
+			th.results = append(th.results, "STUCK")
+		}
+	}
+	for t := 0; t < n; t++ {
+		go func(t int) {
+			th := ths[t]
+			defer close(th.done)
+			defer func() {
+				if p := recover(); p != nil {
+					th.results = append(th.results, "PANIC")
+				}
+			}()
+			for _, o := range progs[t] {
+				p := peerFromKey(unhx(o.pk))
+				th.first = true
+				var err error
+				switch o.kind {
+				case "ps":
+					err = th.ps.PutSeeder(ih, p)
+				case "pl":
+					err = th.ps.PutLeecher(ih, p)
+				case "gr":
+					err = th.ps.GraduateLeecher(ih, p)
+				case "ds":
+					err = th.ps.DeleteSeeder(ih, p)
+				case "dl":
+					err = th.ps.DeleteLeecher(ih, p)
+				}
+				switch {
+				case err == nil:
+					th.results = append(th.results, "ok")
+				case err == storage.ErrResourceDoesNotExist:
+					th.results = append(th.results, "notexist")
+				default:
+					th.results = append(th.results, "err")
+				}
+			}
+		}(t)
+		wait(t)
+	}
+	step := func(t int) {
+		th := ths[t]
+		if th.state != 1 {
+			return
+		}
+		if th.atFirst {
+			order = append(order, [2]int{t, started[t]})
+			started[t]++
+		}
+		th.grant <- struct{}{}
+		wait(t)
+	}
+	for _, t := range sched {
+		if t >= 0 && t < n {
+			step(t)
+		}
+	}
+	mid := redisDump(rig.mr)
+	for t := 0; t < n; t++ {
+		for ths[t].state == 1 {
+			step(t)
+		}
+	}
+	var lg []string
+	for _, e := range order {
+		r := "MISSING"
+		if e[1] < len(ths[e[0]].results) {
+			r = ths[e[0]].results[e[1]]
+		}
+		lg = append(lg, fmt.Sprintf("%d:%s", e[0], r))
+	}
+	for _, th := range ths {
+		<-th.ps.Stop()
+	}
+	return "mid=" + mid + " log=[" + strings.Join(lg, ",") + "]"
 }
